@@ -19,9 +19,10 @@ var Prop = &core.Prop{ID: "C06", Run: run, Child: child, Replay: replay}
 
 type histCase struct {
 	Seed uint64 `json:"seed"`
-	N    int    `json:"n"`    // operations after the initial instantiations
-	Inst int    `json:"inst"` // 1..3 instances
-	SO   int    `json:"so"`   // stack-overflow budget of this history
+	N    int    `json:"n"`                     // operations after the initial instantiations
+	Inst int    `json:"inst"`                  // 1..3 instances
+	SO   int    `json:"so"`                    // stack-overflow budget of this history
+	ET   bool   `json:"close_on_context_done"` // runtimes built WithCloseOnContextDone(true)
 }
 
 type histResult struct {
@@ -30,6 +31,8 @@ type histResult struct {
 	Fails    map[string]int `json:"fails"`   // "kind|depth" -> injected
 	Triples  []string       `json:"triples"` // kind|depth|position
 	Outcomes map[string]int `json:"outcomes"`
+	Ctx      map[string]int `json:"ctx"`
+	ET       bool           `json:"et"`
 	Forms    map[string]int `json:"forms"` // host function | call form -> calls monitored
 	Probes   int            `json:"probes"`
 	PFProbes int            `json:"pf_probes"`
@@ -43,7 +46,7 @@ type histResult struct {
 func genCases(rng *core.Rng, n int, soNum int) []json.RawMessage {
 	var cases []json.RawMessage
 	for i := 0; i < n; i++ {
-		hc := histCase{Seed: rng.U64(), N: 5 + rng.Intn(36), Inst: 1 + rng.Intn(3)}
+		hc := histCase{Seed: rng.U64(), N: 5 + rng.Intn(36), Inst: 1 + rng.Intn(3), ET: rng.Bool()}
 		// stack overflows dominate the cost: bounded share of the histories
 		switch w := rng.Intn(100); {
 		case w < soNum/8:
@@ -124,6 +127,12 @@ func run(c *core.Ctx) int {
 				c.Count("outcome_"+k, int64(v))
 				c.Distinct("outcome_classes", k)
 			}
+			if hr.ET {
+				c.Count("histories_with_close_on_context_done", 1)
+			}
+			for k, v := range hr.Ctx {
+				c.Count("ops_under_context: "+k, int64(v))
+			}
 			for k, v := range hr.Forms {
 				c.Count("host_module_checks", int64(v))
 				c.Count("hostcall_"+k, int64(v))
@@ -167,6 +176,14 @@ func run(c *core.Ctx) int {
 			}
 		}
 	}
+	if c.Counter("histories_with_close_on_context_done") == 0 {
+		c.Inconclusive("no-history-with-close-on-context-done")
+	}
+	for _, n := range ctxNames {
+		if c.Counter("ops_under_context: "+n) == 0 {
+			c.Inconclusive("context-flavour-never-used")
+		}
+	}
 	if c.Counter("op_start") == 0 {
 		c.Inconclusive("start-function-failures-never-run")
 	}
@@ -191,6 +208,7 @@ func run(c *core.Ctx) int {
 	c.Assume("nothing is injected into frames of an instance after it exited, and no call is made into a closed instance through an import")
 	c.Assume("WASI proc_exit cannot be instrumented: which module it acted on is judged by the closed-ness probes of every instance")
 	c.Assume("a probe that does not return within 2x20s is a hang only if the same probe on a fresh runtime of the same engine returned within 20s (control); otherwise inconclusive; an operation that does not return within 100s is inconclusive")
+	c.Assume("half of the histories run on runtimes built WithCloseOnContextDone(true); every operation's calls get a fresh context that becomes done (cancel / 30ms deadline) only after the top-level call returned, which must have no effect; if a deadline is found passed right after the call returned the rest of the history is inconclusive")
 	c.Assume("stack overflow is recognised as errors.Is(err, ErrRuntimeStackOverflow) (the compiler returns it without the 'wasm error:' prefix)")
 	return c.Finish(evals, int64(c.DistinctN("kind_depth_position")),
 		"PRNG histories (5-40 operations over 1-3 instances, B<-A linked by a function import, C independent) run on interpreter and compiler against a Go model; every operation's outcome (result or error class), every error observed by re-entrant host functions at nesting depth 1-6, the api.Module handed to every host function (by name and memory marker, for direct and call_indirect calls from own and from imported functions), and the state of every instance after every failing operation (counter, memory, table, closed?, host view, and a value-neutral run of every atomic instruction on the instance's memory and on a shared memory from the same api.Function, a fresh one and the other instance sharing it) are compared with the model, and the two engines' transcripts with each other; evaluations = histories decided; distinct = distinct (failure kind, nesting depth, position in history) triples injected")
@@ -240,7 +258,7 @@ func child(mode string, in json.RawMessage) any {
 
 func runCase(hc histCase, verbose bool) *histResult {
 	ops := genHistory(hc)
-	hr := &histResult{Ops: map[string]int{}, Fails: map[string]int{}, Outcomes: map[string]int{}, Forms: map[string]int{}}
+	hr := &histResult{Ops: map[string]int{}, Fails: map[string]int{}, Outcomes: map[string]int{}, Forms: map[string]int{}, Ctx: map[string]int{}, ET: hc.ET}
 	for i, o := range ops {
 		hr.Ops[o.Kind]++
 		hr.Outcomes[normClass(o.WantClass)]++
@@ -249,6 +267,7 @@ func runCase(hc histCase, verbose bool) *histResult {
 			hr.Triples = append(hr.Triples, fmt.Sprintf("%s|%d|%d", f.Kind, f.Depth, i))
 		}
 		hr.Calls += 1 + len(o.Steps)
+		hr.Ctx[ctxNames[o.Ctx]]++
 		for _, ev := range o.WantMods {
 			hr.Forms[ev.Fn+"|"+ev.Form]++
 		}
@@ -261,7 +280,7 @@ func runCase(hc histCase, verbose bool) *histResult {
 		}
 	}
 	var runs []*runner
-	for _, e := range getEngines() {
+	for _, e := range getEngines(hc.ET) {
 		r := runHistory(e, ops, func(i int) bool { return sel[i] }, !verbose)
 		runs = append(runs, r)
 		hr.Findings = append(hr.Findings, r.findings...)
@@ -278,7 +297,16 @@ func runCase(hc histCase, verbose bool) *histResult {
 	}
 	if len(runs) == 2 {
 		a, b := runs[0], runs[1]
-		for i := 0; i < len(a.trans) && i < len(b.trans); i++ {
+		// an operation at which one engine already deviates from the model is not compared again
+		limit := len(ops)
+		for _, r := range runs {
+			for _, f := range r.findings {
+				if f.OpIdx < limit {
+					limit = f.OpIdx
+				}
+			}
+		}
+		for i := 0; i < len(a.trans) && i < len(b.trans) && i < limit; i++ {
 			if a.trans[i] != b.trans[i] {
 				o := ops[i]
 				part := "state"
